@@ -429,11 +429,11 @@ Qed.
 
 Lemma extra_rows x : shape_ok x ->
   sam_extra x = map (fun r => let st := last0 (r_fs r) + last0 (r_fl r) + 1 in
-                              slice st (st + Z.max (r_e r - st - 1) 0) (x_data x)) (rows x).
+                              slice st (st + Z.max (extra_end (x_data x) (r_e r) - st) 0) (x_data x)) (rows x).
 Proof.
-  intros (A & B & C). unfold sam_extra, extract, rows, vsub.
+  intros (A & B & C). unfold sam_extra, extract, rows.
   rewrite (zip4_map_gen (fun _ e fs fl => let st := last0 fs + last0 fl + 1 in
-                                          slice st (st + Z.max (e - st - 1) 0) (x_data x))) by auto.
+                                          slice st (st + Z.max (extra_end (x_data x) e - st) 0) (x_data x))) by auto.
   generalize (x_es x) (x_ee x) A B C. generalize (x_fl x). generalize (x_fs x).
   induction l as [|f fss IH]; intros [|l fls] [|s ss] [|e es]; simpl; intros; try discriminate; auto.
   f_equal. apply IH; lia.
@@ -498,21 +498,40 @@ Proof.
   replace (S (S (length l)) - 1)%nat with (S (S (length l) - 1))%nat by lia. reflexivity.
 Qed.
 
-Lemma a_extra_row data r : row_ok (len data) r -> r_fs r <> [] ->
-  a_extra (arow_of data r) = let st := last0 (r_fs r) + last0 (r_fl r) + 1 in
-                             slice st (st + Z.max (r_e r - st - 1) 0) data.
+Lemma nth_skipn_add {A} (l : list A) : forall s i d, nth i (skipn s l) d = nth (s + i) l d.
+Proof. induction l as [|x l IH]; intros [|s] i d; simpl; auto. destruct i; reflexivity. Qed.
+Lemma nth_firstn_lt0 {A} (l : list A) n i d : (i < n)%nat -> nth i (firstn n l) d = nth i l d.
+Proof. revert l i. induction n; intros [|x l] [|i] H; simpl; auto; try lia. apply IHn. lia. Qed.
+Lemma nthZ_slice (data : list Z) s e i : 0 <= s -> 0 <= i < e - s -> nthZ (slice s e data) i = nthZ data (s + i).
 Proof.
-  intros H Hn. pose proof H as (H0 & H1 & H2 & HL & HF). unfold a_extra, arow_of; simpl.
-  rewrite last_combine_rel by auto. simpl. unfold last0.
+  intros Hs Hi. unfold nthZ, slice. rewrite nth_firstn_lt0 by lia. rewrite nth_skipn_add. f_equal. lia.
+Qed.
+
+Lemma extra_end_slice data s e : 0 <= s -> s + 2 <= e -> e <= len data ->
+  extra_end (slice s e data) (len (slice s e data)) = extra_end data e - s.
+Proof.
+  intros Hs He Hl. rewrite len_slice by lia. unfold extra_end.
+  replace (Z.max (e - s - 1 - 1) 0) with (e - s - 2) by lia. replace (Z.max (e - 1 - 1) 0) with (s + (e - s - 2)) by lia.
+  rewrite nthZ_slice by lia. destruct (nthZ data (s + (e - s - 2)) =? CR); lia.
+Qed.
+
+Lemma a_extra_row data r : row_ok (len data) r -> r_fs r <> [] -> r_s r + 2 <= r_e r ->
+  a_extra (arow_of data r) = let st := last0 (r_fs r) + last0 (r_fl r) + 1 in
+                             slice st (st + Z.max (extra_end data (r_e r) - st) 0) data.
+Proof.
+  intros H Hn H2e. pose proof H as (H0 & H1 & H2 & HL & HF). unfold a_extra, arow_of; cbn [a_rec a_rel].
+  rewrite last_combine_rel by auto. cbn [fst snd]. unfold last0.
   assert (Hk : (length (r_fs r) - 1 < length (r_fs r))%nat) by (destruct (r_fs r); simpl; try congruence; lia).
   destruct (row_field_bounds _ _ _ H Hk) as (B1 & B2 & B3).
   rewrite (last_nth (r_fs r)), (last_nth (r_fl r)). rewrite <- HL.
   set (a := nth (length (r_fs r) - 1) (r_fs r) 0) in *. set (l := nth (length (r_fs r) - 1) (r_fl r) 0) in *.
-  rewrite len_slice by lia.
+  rewrite extra_end_slice by lia.
+  assert (Hee : extra_end data (r_e r) <= r_e r - 1) by (unfold extra_end; destruct (nthZ data _ =? CR); lia).
+  cbv zeta.
   replace (a - r_s r + l + 1) with (a + l + 1 - r_s r) by lia.
-  replace (r_e r - r_s r - (a + l + 1 - r_s r) - 1) with (r_e r - (a + l + 1) - 1) by lia.
-  replace (a + l + 1 - r_s r + Z.max (r_e r - (a + l + 1) - 1) 0)
-    with (a + l + 1 + Z.max (r_e r - (a + l + 1) - 1) 0 - r_s r) by lia.
+  replace (extra_end data (r_e r) - r_s r - (a + l + 1 - r_s r)) with (extra_end data (r_e r) - (a + l + 1)) by lia.
+  replace (a + l + 1 - r_s r + Z.max (extra_end data (r_e r) - (a + l + 1)) 0)
+    with (a + l + 1 + Z.max (extra_end data (r_e r) - (a + l + 1)) 0 - r_s r) by lia.
   apply slice_slice; lia.
 Qed.
 
@@ -533,13 +552,16 @@ Proof.
   specialize (W r Hr). rewrite a_rel_length in W; auto. destruct (R r Hr) as (_ & _ & _ & HL & _); auto.
 Qed.
 
-Lemma extra_view x : Inv x -> width_gt 0 (view x) -> sam_extra x = map a_extra (view x).
+Lemma extra_view x : Inv x -> width_gt 0 (view x) -> Forall (fun a => 2 <= len (a_rec a)) (view x) ->
+  sam_extra x = map a_extra (view x).
 Proof.
-  intros (S & R & _) W. rewrite extra_rows by auto. unfold view in *. rewrite map_map.
-  apply map_ext_Forall. unfold width_gt in W. rewrite Forall_map in W.
-  rewrite Forall_forall in *. intros r Hr. symmetry. apply a_extra_row; auto.
-  specialize (W r Hr). rewrite a_rel_length in W; [|destruct (R r Hr) as (_ & _ & _ & HL & _); auto].
-  destruct (r_fs r); simpl in *; [lia|discriminate].
+  intros (S & R & _) W W2. rewrite extra_rows by auto. unfold view in *. rewrite map_map.
+  apply map_ext_Forall. unfold width_gt in W. rewrite Forall_map in W. rewrite Forall_map in W2.
+  rewrite Forall_forall in *. intros r Hr. symmetry.
+  pose proof (R r Hr) as (R0 & R1 & R2 & HL & _).
+  apply a_extra_row; auto.
+  - specialize (W r Hr). rewrite a_rel_length in W by auto. destruct (r_fs r); simpl in *; [lia|discriminate].
+  - specialize (W2 r Hr). unfold arow_of in W2; cbn [a_rec] in W2. rewrite len_slice in W2 by lia. lia.
 Qed.
 
 (* ------------------------------------------------------------------ the lazy writer *)
@@ -556,7 +578,7 @@ Proof.
   intros I W Hi. destruct f; unfold field_text, a_field_text; simpl in *; try (apply get_field_view; auto).
   - destruct (i =? 8) eqn:E; [|apply get_field_view; auto].
     apply Z.eqb_eq in E; subst. apply rest_view; auto. apply W. lia.
-  - destruct (i =? 11) eqn:E; [|apply get_field_view; auto]. apply extra_view; auto.
+  - destruct (i =? 11) eqn:E; [|apply get_field_view; auto]. destruct W. apply extra_view; auto.
   - destruct (i =? 2) eqn:E; apply get_field_view; auto.
 Qed.
 
@@ -690,9 +712,11 @@ Qed.
 (* ------------------------------------------------------------------ main statements *)
 Lemma width_ok_incl f v v0 : incl v v0 -> width_ok f v0 -> width_ok f v.
 Proof.
-  intros Hi. assert (G : forall k, width_gt k v0 -> width_gt k v).
-  { intros k. unfold width_gt. rewrite !Forall_forall. intros H a Ha. apply H. apply Hi. exact Ha. }
-  destruct f; simpl; auto.
+  intros Hi. assert (G : forall (P : arow -> Prop), Forall P v0 -> Forall P v).
+  { intros P. rewrite !Forall_forall. intros H a Ha. apply H. apply Hi. exact Ha. }
+  destruct f; simpl; auto; unfold width_gt.
+  - intros H Hn. apply G. auto.
+  - intros (A & B). split; apply G; auto.
 Qed.
 
 Theorem program_write vr f x0 p out :
@@ -758,8 +782,9 @@ Proof.
     + apply negb_true_iff in H. lia.
     + rewrite forallb_forall in H. rewrite Forall_forall. intros a Ha. specialize (H a Ha).
       apply Nat.ltb_lt in H. exact H.
-  - intros H. rewrite forallb_forall in H. rewrite Forall_forall. intros a Ha. specialize (H a Ha).
-    apply Nat.ltb_lt in H. exact H.
+  - intros H. apply andb_true_iff in H. destruct H as (H1 & H2). rewrite forallb_forall in H1, H2. split.
+    + rewrite Forall_forall. intros a Ha. specialize (H1 a Ha). apply Nat.ltb_lt in H1. exact H1.
+    + rewrite Forall_forall. intros a Ha. specialize (H2 a Ha). lia.
 Qed.
 
 (* ------------------------------------------------------------------ link to the byte-level Spec for pure selections *)
